@@ -11,6 +11,14 @@ def unhx(h):
     return "" if h == "-" else bytes.fromhex(h).decode("utf-8", "replace")
 
 
+def _span(tok):
+    """harness span token hexfile@r:c-r:c -> 'file:r:c-r:c' (or '-')"""
+    if tok == "-" or "@" not in tok:
+        return tok
+    f, loc = tok.split("@", 1)
+    return unhx(f) + ":" + loc
+
+
 def parse_diags(line):
     """-> list of dicts {code, level, span, msg, scope, notes:[(span,msg)]} or None when the line is not a dump."""
     if line == "none":
@@ -22,12 +30,12 @@ def parse_diags(line):
         t = part.split(" ")
         if len(t) < 5:
             return None
-        d = {"code": t[0], "level": t[1], "span": t[2], "msg": unhx(t[3]), "scope": None if t[4] == "-" else unhx(t[4]), "notes": []}
+        d = {"code": t[0], "level": t[1], "span": _span(t[2]), "msg": unhx(t[3]), "scope": None if t[4] == "-" else unhx(t[4]), "notes": []}
         for n in t[5:]:
             if n.startswith("note:"):
                 body = n[5:]
                 sp, _, mh = body.rpartition(":")
-                d["notes"].append((sp, unhx(mh)))
+                d["notes"].append((_span(sp), unhx(mh)))
         out.append(d)
     return out
 
